@@ -77,10 +77,12 @@ CLAIMED["C04"] = dict(
          "SequencePrediction are executed over the real validator bodies and Field bounds read from the class definitions and "
          "proved two-sidedly equivalent to the relational spec written from the statement (same clip; match targets/sources a "
          "duplicate-free enumeration of exactly the annotated/predicted ids; source or target present; every annotated clip has "
-         "a task; start <= end; scores in [0,1]).",
+         "a task; start <= end; scores in [0,1]). AOEF loading as a construction path: the real assemble_soundevent of the Match, "
+         "SoundEventPrediction and SequencePrediction adapters, run on an arbitrary stored object, returns only objects that satisfy "
+         "their invariant.",
     note="Trusted: engine, solvers, pydantic construction contract, len(set(xs)) == len(xs) iff xs duplicate-free. That dict / "
-         "JSON validation and AOEF loading go through the same construction is the pydantic assumption, checked by the bounded "
-         "stand-in schema_paths (constructor, dict, JSON) and by C01's loaders.",
+         "JSON validation go through the same construction is the pydantic assumption, checked by the bounded stand-in schema_paths "
+         "(constructor, dict, JSON), which also edits saved AOEF documents field by field and loads them (fourth path, end to end).",
     technique=TECH + "; symbolic sets as element lists; filter comprehensions with monotone source-index functions",
 )
 CLAIMED["C19"] = dict(
